@@ -89,8 +89,9 @@ CONTRACTS = {
     K + "check_cache": dict(
         props=["C09"],
         params={"node": OBJ("HyperNode"), "inputs": DICT(STR, ANY), "cache": ANY},
-        returns=FIXTUP(STR, ANY),
+        returns=FIXTUP(STR, OPT(DICT(STR, ANY))),
         may_raise={"Exception": True},
+        fresh=["result[1]"],  # a hit hands out a COPY of the stored mapping (the caller pops the routing key from it)
         trace=[{"name": "C09 opt-in: a node without cache=True never touches the backend", "check": lambda tr, outcome, raised, env, ex, s: __import__("contracts.c_cache", fromlist=["x"]).optin(tr, outcome, raised, env, ex, s)}],
     ),
     K + "restore_routing_decision": dict(
